@@ -204,7 +204,7 @@ def rand_exact_dur(rng, integral=None, big=False):
     if v < 0.55:
         return {"weeks": rng.randint(-300, 300)}
     kw = {}
-    maxd = 40000 if big else 800
+    maxd = rng.choice((40000, 40000, 400000)) if big else 800
     if rng.random() < 0.7:
         kw["days"] = rng.choice([rng.randint(-40, 40),
                                  rng.randint(-maxd, maxd)])
